@@ -958,10 +958,8 @@ func (cr *cliRun) await(st *Step) {
 		}
 		e.probe("client: stream fault observed")
 		if err == nil {
-			// a clean EOF on the receive side is not an error: the client just stops
-			if sst != nil && len(sst.SendErrs)+len(sst.ReadErrs) == 0 && strings.Contains(cr.faultWhat, "(OK)") && strings.HasPrefix(cr.faultWhat, "recv") {
-				return
-			}
+			// (a clean EOF on the receive side is not an error, the client just stops - but convergence may still
+			// only be reported if nothing is left pending)
 			// convergence is legitimate if every operation had been answered before the failure was observed
 			fib := e.sc.Cfg.FIBAck
 			answered := map[uint64]bool{}
